@@ -1,2 +1,147 @@
-(* C14 — property theorems only. *)
+(* C14 — property theorems only: each closed by [exact], each followed by Print Assumptions.
+   Vocabulary: [le k n] (Model.v) = the k bytes getbytes produces for the integer n;
+   [record_msg r] / [summary_msg r] (Model.v) = mirror of messageRecords / messageSummaries;
+   [unle], [decode_record], [decode_summary], [C14_check], [fits] (Spec.v) = written from
+   doc/BINARY_FORMATS.md, they do not mention the model. *)
 From Dastard Require Import Common.ZX C14.Model C14.Spec C14.Proofs.
+
+(* ---- generic little-endian lemmas, every width k ---- *)
+
+Theorem unle_le_roundtrip :
+  forall (k : nat) (n : Z), 0 <= n < 2 ^ (8 * Z.of_nat k) -> unle (le k n) = n.
+Proof. exact unle_le. Qed.
+Print Assumptions unle_le_roundtrip.
+
+Example unle_le_roundtrip_instance : 0 <= 65535 < 2 ^ (8 * Z.of_nat 2) /\ le 2 65535 = [255; 255].
+Proof. vm_compute. intuition discriminate. Qed.
+
+(* without the range premise: the encoder keeps the low 8k bits (Go's uintN(x) conversions), also of negatives *)
+Theorem unle_le_wraps :
+  forall (k : nat) (n : Z), unle (le k n) = n mod 2 ^ (8 * Z.of_nat k).
+Proof. exact unle_le_mod. Qed.
+Print Assumptions unle_le_wraps.
+
+Theorem le_unle_roundtrip :
+  forall bs : list Z, Forall (fun b => 0 <= b < 256) bs -> le (length bs) (unle bs) = bs.
+Proof. exact le_unle. Qed.
+Print Assumptions le_unle_roundtrip.
+
+(* signed 64-bit fields: two's complement written out *)
+Theorem int64_field_roundtrip :
+  forall n : Z, - 2 ^ 63 <= n < 2 ^ 63 ->
+    (if unle (le 8 n) <? 2 ^ 63 then unle (le 8 n) else unle (le 8 n) - 2 ^ 64) = n.
+Proof. exact int64_roundtrip. Qed.
+Print Assumptions int64_field_roundtrip.
+
+Example int64_field_roundtrip_instance : le 8 (-2) = [254; 255; 255; 255; 255; 255; 255; 255].
+Proof. vm_compute. reflexivity. Qed.
+
+(* ---- the headline theorems ---- *)
+
+(* Decoding the record message per the document recovers the record's fields exactly, for ALL records
+   whose fields fit their header fields ([fits], Spec.v: channel < 2^16, presamples and length < 2^32,
+   samples 16 bit, float32 patterns < 2^32, time and frame signed 64 bit). *)
+Theorem record_message_roundtrip :
+  forall r : record, fits r ->
+    decode_record (record_msg r) =
+      Some {| f_chan := r_chan r; f_signed := r_signed r; f_pre := r_pre r; f_nsamp := zlen (r_data r);
+              f_period := r_period r; f_vpa := r_vpa r; f_time := r_time r; f_frame := r_frame r;
+              f_samples := r_data r |}.
+Proof. exact record_roundtrip. Qed.
+Print Assumptions record_message_roundtrip.
+
+Theorem summary_message_roundtrip :
+  forall r : record, fits r ->
+    decode_summary (summary_msg r) =
+      Some {| s_chan := r_chan r; s_pre := r_pre r; s_nsamp := zlen (r_data r);
+              s_ptmean := r_ptmean r; s_peak := r_peak r; s_rms := r_rms r; s_avg := r_avg r;
+              s_resid := r_resid r; s_time := r_time r; s_frame := r_frame r; s_coefs := r_coefs r |}.
+Proof. exact summary_roundtrip. Qed.
+Print Assumptions summary_message_roundtrip.
+
+(* the premise is satisfiable by a record with negative time, frame >= 2^32, +Inf and NaN analysis values *)
+Example fits_instance : fits example_record.
+Proof. exact example_fits. Qed.
+
+(* the decoder applied to a message written by hand from the document's table; the model gives those bytes *)
+Example decode_instance :
+  decode_record [[2; 1;  0;  3;  1; 0; 0; 0;  3; 0; 0; 0;  189; 55; 134; 53;  0; 0; 128; 56;
+                  255; 255; 255; 255; 255; 255; 255; 255;  0; 0; 0; 0; 1; 0; 0; 0];
+                 [1; 0; 255; 255; 1; 2]]
+  = Some {| f_chan := 258; f_signed := false; f_pre := 1; f_nsamp := 3; f_period := 897988541;
+            f_vpa := 947912704; f_time := -1; f_frame := 4294967296; f_samples := [1; 65535; 513] |}
+  /\ record_msg example_record =
+     [[2; 1;  0;  3;  1; 0; 0; 0;  3; 0; 0; 0;  189; 55; 134; 53;  0; 0; 128; 56;
+       255; 255; 255; 255; 255; 255; 255; 255;  0; 0; 0; 0; 1; 0; 0; 0];
+      [1; 0; 255; 255; 1; 2]].
+Proof. exact (conj example_decode_literal example_model_literal). Qed.
+
+(* both messages have two frames; the headers are 36 and 48 bytes — for every record, no premise *)
+Theorem header_lengths :
+  forall r : record,
+    length (record_msg r) = 2%nat /\ length (summary_msg r) = 2%nat /\
+    zlen (nth 0 (record_msg r) []) = 36 /\ zlen (nth 0 (summary_msg r) []) = 48.
+Proof. exact header_lengths_proof. Qed.
+Print Assumptions header_lengths.
+
+(* the second frame is exactly 2 bytes per sample / 8 bytes per coefficient — for every record *)
+Theorem payload_length :
+  forall r : record,
+    zlen (nth 1 (record_msg r) []) = 2 * zlen (r_data r) /\
+    zlen (nth 1 (summary_msg r) []) = 8 * zlen (r_coefs r).
+Proof. exact payload_length_proof. Qed.
+Print Assumptions payload_length.
+
+(* the first two bytes of either message are the little-endian channel number *)
+Theorem prefix_is_channel :
+  forall r : record, 0 <= r_chan r < 2 ^ 16 ->
+    zfirstn 2 (nth 0 (record_msg r) []) = [r_chan r mod 256; r_chan r / 256] /\
+    zfirstn 2 (nth 0 (summary_msg r) []) = [r_chan r mod 256; r_chan r / 256] /\
+    unle [r_chan r mod 256; r_chan r / 256] = r_chan r.
+Proof. exact prefix_is_channel_proof. Qed.
+Print Assumptions prefix_is_channel.
+
+(* ... hence a 2-byte ZMQ subscription prefix selects exactly one channel *)
+Theorem prefix_separates_channels :
+  forall r1 r2 : record, 0 <= r_chan r1 < 2 ^ 16 -> 0 <= r_chan r2 < 2 ^ 16 ->
+    (zfirstn 2 (nth 0 (record_msg r1) []) = zfirstn 2 (nth 0 (record_msg r2) []) \/
+     zfirstn 2 (nth 0 (summary_msg r1) []) = zfirstn 2 (nth 0 (summary_msg r2) [])) ->
+    r_chan r1 = r_chan r2.
+Proof. exact prefix_separates_proof. Qed.
+Print Assumptions prefix_separates_channels.
+
+(* the 8-byte frame field read as unsigned (as the Go comments describe it) is the frame when it is >= 0 *)
+Theorem frame_unsigned_reading :
+  forall r : record, 0 <= r_frame r < 2 ^ 63 ->
+    uint_at (nth 0 (record_msg r) []) 28 8 = r_frame r /\
+    uint_at (nth 0 (summary_msg r) []) 40 8 = r_frame r.
+Proof. exact frame_unsigned_proof. Qed.
+Print Assumptions frame_unsigned_reading.
+
+(* ---- the checker used on the implementation's frames ---- *)
+
+(* model output passes the checker (so verdict code 3 cannot occur inside the domain) *)
+Theorem model_passes_checker :
+  forall r : record, fits r -> C14_check r (record_msg r) (summary_msg r) = true.
+Proof. exact model_passes_checker_proof. Qed.
+Print Assumptions model_passes_checker.
+
+(* what acceptance means for ANY observed frames, independent of the model *)
+Theorem checker_sound :
+  forall (r : record) (recmsg summsg : list (list Z)),
+    C14_check r recmsg summsg = true ->
+    decode_record recmsg = Some (rec_fields_of r) /\
+    decode_summary summsg = Some (sum_fields_of r) /\
+    (exists h p, recmsg = [h; p] /\ zlen h = 36 /\ zlen p = 2 * zlen (r_data r) /\
+                 zfirstn 2 h = [r_chan r mod 256; r_chan r / 256]) /\
+    (exists h p, summsg = [h; p] /\ zlen h = 48 /\ zlen p = 8 * zlen (r_coefs r) /\
+                 zfirstn 2 h = [r_chan r mod 256; r_chan r / 256]).
+Proof. exact checker_sound_proof. Qed.
+Print Assumptions checker_sound.
+
+(* the document leaves no slack: frames accepted for r are byte for byte the model's frames *)
+Theorem checker_tight :
+  forall (r : record) (recmsg summsg : list (list Z)),
+    C14_check r recmsg summsg = true -> recmsg = record_msg r /\ summsg = summary_msg r.
+Proof. exact checker_tight_proof. Qed.
+Print Assumptions checker_tight.
